@@ -35,12 +35,24 @@ def norm(t):
     if isinstance(t, tuple):
         if t and t[0] == 'ok' and is_bs(t[1]):
             return ('HIT', show(t[1][2][0]).split('.')[-1])
+        if t and t[0] == 'field' and is_bs(t[1]) and t[2] in ('Ok.0', 'ok'):
+            return ('HIT', show(t[1][2][0]).split('.')[-1])
         if t and t[0] == 'field' and is_bs(t[1]) and t[2] in ('err', 'Err.0'):
             return ('MISS', show(t[1][2][0]).split('.')[-1])
+        if t and t[0] == 'ok' and isinstance(t[1], tuple) and t[1] and t[1][0] == 'call' and t[1][1].endswith('::get') and len(t[1][2]) == 2:
+            return ('call', 'index', (norm(t[1][2][0]), norm(t[1][2][1])))
         if t and t[0] == 'closure':
             return ('closure',)
         return tuple(norm(x) for x in t)
     return t
+
+
+def has_sub(t, what):
+    if t == what:
+        return True
+    if isinstance(t, tuple):
+        return any(has_sub(x, what) for x in t)
+    return False
 
 
 def sh(t):
@@ -79,7 +91,8 @@ def run(ctx):
         if p not in F.hir:
             res.error('anchor lost: ' + p)
             return res
-    nop = Policy(effects=lambda p: True, inline=lambda p: False, loop_cut=3)
+    from heval import local_policy
+    nop = local_policy(F, GEN, events=[r'^std::', r'^core::'], loop_cut=3, split_try='option')
     try:
         converter(F, res, nop)
         generator(F, res, nop)
@@ -200,9 +213,17 @@ def generator(F, res, nop):
         elif got.startswith('InstrEdge'):
             key = 'classify/InstrEdge'
             T = 'instrument_address_convert_table'
-            good = got == 'InstrEdge{instr_id: %s[MISS(%s)].1}' % (T, T) and \
-                ('(MISS(%s) Lt len(self.%s))' % (T, T), True) in atoms and \
-                ('((%s[MISS(%s)].0 Sub 1) Eq address)' % (T, T), True) in atoms
+            E = '%s[MISS(%s)]' % (T, T)
+            exists = ('(MISS(%s) Lt len(self.%s))' % (T, T), True) in atoms or ('(len(self.%s) Gt MISS(%s))' % (T, T), True) in atoms
+            for k, v in w.assumptions:
+                # `table.get(i)` known to be Some is the same knowledge as `i < table.len()`
+                if isinstance(k, tuple) and k and k[0] == 'call' and k[1].endswith('::get') and isinstance(v, tuple) and v[0] == 'ctor' \
+                        and v[2] == 'Some' and has_sub(norm(k), ('MISS', T)):
+                    exists = True
+            eqs = {'((%s.0 Sub 1) Eq address)' % E, '(address Eq (%s.0 Sub 1))' % E, '(%s.0 Eq (address Add 1))' % E,
+                   '((address Add 1) Eq %s.0)' % E}
+            one_below = any(a in eqs and v is True for a, v in atoms)
+            good = got == 'InstrEdge{instr_id: %s.1}' % E and exists and one_below
             want = 'the entry after the miss, exactly one byte above the address, in range'
         else:
             # range search
@@ -239,31 +260,36 @@ def generator(F, res, nop):
     # comparators
     spec = {'InclusiveFunctionEnd': lambda s, e, a: 'Less' if e < a else ('Greater' if a <= s else 'Equal'),
             'ExclusiveFunctionEnd': lambda s, e, a: 'Less' if e <= a else ('Greater' if a < s else 'Equal')}
+    allcl = set()
+    for v in pref_closure.values():
+        allcl |= v
+    if not allcl:
+        # the preference may be consulted inside the comparator instead of selecting one: take every closure handed to
+        # the range search
+        for w in ws:
+            for k, v in w.assumptions:
+                if is_bs(k) and 'address_convert_table' in show(k[2][0]) and isinstance(k[2][1], tuple) and k[2][1][0] == 'closure':
+                    allcl.add(k[2][1][1][0])
     for pref, fn in spec.items():
-        cl = pref_closure.get(pref, set())
+        cl = pref_closure.get(pref) or allcl
         key = 'comparator/' + pref
         if len(cl) != 1:
             res.bad(key, 'AddressSearchPreference::%s does not select exactly one range comparator (%s)' % (pref, sorted(cl)))
             continue
         cpath = list(cl)[0]
-        try:
-            cws = Evaluator(F, nop).run(lambda st: st.call_closure(('closure', (cpath, 0)), [sym('range')], None)) if False else None
-        except EvalError:
-            cws = None
-        # closures capture `address`; evaluate inside the enclosing function so that captures resolve
-        table = closure_worlds(F, nop, cpath)
+        table = closure_worlds(F, nop, cpath, pref)
         if table is None:
             res.error('range comparator %s not analysable' % cpath)
             continue
         bad = None
         n = 0
-        for s, e, a in itertools.product(range(0, 5), repeat=3):
-            if not s < e:
+        for s_, e_, a_ in itertools.product(range(0, 5), repeat=3):
+            if not s_ < e_:
                 continue
             hits = []
             for w in table:
                 try:
-                    if decide_cmp(w, s, e, a):
+                    if decide_cmp(w, s_, e_, a_):
                         hits.append(w)
                 except KeyError as ke:
                     bad = 'uses something other than comparisons of address/start/end: %s' % ke
@@ -272,8 +298,8 @@ def generator(F, res, nop):
                 break
             outs = set(sh(w.value) for w in hits)
             n += 1
-            if outs != {fn(s, e, a) + '{}'} and outs != {fn(s, e, a)}:
-                bad = 'for start=%d end=%d address=%d it answers %s, the %s search needs %s' % (s, e, a, sorted(outs), pref, fn(s, e, a))
+            if outs != {fn(s_, e_, a_) + '{}'} and outs != {fn(s_, e_, a_)}:
+                bad = 'for start=%d end=%d address=%d it answers %s, the %s search needs %s' % (s_, e_, a_, sorted(outs), pref, fn(s_, e_, a_))
                 break
         if bad:
             res.bad(key, 'range comparator selected by %s: %s' % (pref, bad))
@@ -281,7 +307,7 @@ def generator(F, res, nop):
             res.ok(key, {'preference': pref, 'orderings_checked': n, 'semantics': 'start < a <= end' if pref.startswith('Incl') else 'start <= a < end'})
 
 
-def closure_worlds(F, nop, cpath):
+def closure_worlds(F, nop, cpath, pref=None):
     """worlds of a comparator closure applied to a symbolic range; the closure is created by running the enclosing
     function (so that its capture of `address` resolves) and then applied once more, outside, to `range`"""
     class Done(Exception):
@@ -307,10 +333,14 @@ def closure_worlds(F, nop, cpath):
     for w in ws:
         if w.outcome != 'return' or 'closure-not-created' in show(w.value):
             continue
+        # worlds of the other preference do not describe this comparator
+        other = [v[2] for k, v in w.assumptions if isinstance(v, tuple) and v and v[0] == 'ctor' and v[1].endswith('AddressSearchPreference')]
+        if pref is not None and other and other[0] != pref:
+            continue
         # keep only what the closure itself assumed: comparisons between address and the symbolic range
         asm = [(k, v) for k, v in w.assumptions if isinstance(k, tuple) and k and k[0] == 'atom' and 'range' in show(k[1])
                and 'binary_search' not in show(k[1])]
-        sig = (tuple((show(k), v) for k, v in asm), show(w.value))
+        sig = (tuple((show(k), v) for k, v in asm), show(w.value), pref)
         if sig in seen:
             continue
         seen.add(sig)
